@@ -126,6 +126,10 @@ def families(rng):
     class MyFrozen(frozenset): pass
     class MyOD(collections.OrderedDict): pass
     NT = collections.namedtuple('NT', ['left', 'right'])
+    class HK0:
+        def __init__(self, **k):
+            self.k = k
+    P.register_pretty(HK0)(lambda v, ctx: P.pretty_call(ctx, HK0, **v.k))
     F['nested-dict-subclass'] = lambda n: nest(n, lambda v, i: MyDict({'k': v}))
     F['nested-dict-subclass-2keys'] = lambda n: nest(n, lambda v, i: MyDict({'a': v, 'b': i}))
     F['nested-list-subclass'] = lambda n: nest(n, lambda v, i: MyList([v]))
@@ -145,6 +149,21 @@ def families(rng):
     F['nested-mappingproxy'] = lambda n: nest(n, lambda v, i: types.MappingProxyType({'k': v}))
     F['nested-exception'] = lambda n: nest(n, lambda v, i: ValueError('msg', v))
     F['nested-tuple-as-dict-key'] = lambda n: {nest(n, lambda v, i: (v, i)): 'x'}
+    # a GROUP (something the layout may put flat or broken) followed on the same line by a nested value that has to
+    # break: keys that are tuples / frozensets / dates / calls / namedtuples, a tuple before the nested argument
+    import datetime as _dt
+    F['nested-dicts-tuple-keys'] = lambda n: nest(n, lambda v, i: {(i, 'k'): v})
+    F['nested-dicts-tuple-keys-2'] = lambda n: nest(n, lambda v, i: {(i, 'a'): i, (i, 'b'): v})
+    F['nested-dicts-frozenset-keys'] = lambda n: nest(n, lambda v, i: {frozenset([i, 'k']): v})
+    F['nested-dicts-date-keys'] = lambda n: nest(n, lambda v, i: {_dt.date(2000, 1, 1 + i % 28): v})
+    F['nested-dicts-datetime-keys'] = lambda n: nest(n, lambda v, i: {_dt.datetime(2000, 1, 1, i % 24): v})
+    F['nested-dicts-call-keys'] = lambda n: nest(n, lambda v, i: {H(i, 'k'): v})
+    F['nested-dicts-namedtuple-keys'] = lambda n: nest(n, lambda v, i: {NT(i, 'k'): v})
+    F['nested-dicts-nested-tuple-keys'] = lambda n: nest(n, lambda v, i: {((i, 'a'), ('b',)): v})
+    F['nested-ordereddict-tuple-keys'] = lambda n: nest(n, lambda v, i: collections.OrderedDict([((i, 'k'), v)]))
+    F['nested-lists-after-tuple'] = lambda n: nest(n, lambda v, i: [(i, 'k'), v])
+    F['nested-calls-after-tuple'] = lambda n: nest(n, lambda v, i: H((i, 'k'), v))
+    F['nested-kwargs-after-tuple'] = lambda n: nest(n, lambda v, i: HK0(a=(i, 'k'), b=v))
     # comments x every wrapper: the child carries a comment / the container a trailing comment, at every level
     class HK:
         def __init__(self, **k):
